@@ -308,7 +308,7 @@ impl Agg {
         self.clock_reads += l.clock_reads;
         self.sim_span_s += l.sim_span_s;
         self.events += l.events as u64;
-        let fired: u64 = l.counters.iter().filter(|(k, _)| k.contains('.') && !k.starts_with("probe.")).map(|(_, v)| *v).sum();
+        let fired: u64 = l.counters.iter().filter(|(k, _)| is_fault_key(k)).map(|(_, v)| *v).sum();
         for (k, v) in l.counters.iter() { *self.counters.entry(k.clone()).or_insert(0) += v; }
         self.trace_hashes.insert(l.trace_hash);
         if l.judged > 0 && fired > 0 { self.nontrivial_hashes.insert(l.trace_hash); }
@@ -326,6 +326,12 @@ impl Agg {
             }
         }
     }
+}
+
+/// counters named "<group>.<kind>" are injected faults that actually fired, except the
+/// probe.* (reach probes) and unjudged.* (why a step was not judged) groups
+fn is_fault_key(k: &str) -> bool {
+    k.contains('.') && !k.starts_with("probe.") && !k.starts_with("unjudged.")
 }
 
 fn env_u64(name: &str, default: u64) -> u64 {
@@ -524,8 +530,9 @@ pub fn check_main(args: &[String]) -> i32 {
 
     let wall = t_start.elapsed().as_secs_f64();
     // evidence
-    let fault_kinds: BTreeMap<String, u64> = agg.counters.iter().filter(|(k, _)| k.contains('.') && !k.starts_with("probe.")).map(|(k, v)| (k.clone(), *v)).collect();
-    let probes: BTreeMap<String, u64> = agg.counters.iter().filter(|(k, _)| k.starts_with("probe.") || !k.contains('.')).map(|(k, v)| (k.clone(), *v)).collect();
+    let fault_kinds: BTreeMap<String, u64> = agg.counters.iter().filter(|(k, _)| is_fault_key(k)).map(|(k, v)| (k.clone(), *v)).collect();
+    let probes: BTreeMap<String, u64> = agg.counters.iter().filter(|(k, _)| k.starts_with("probe.")).map(|(k, v)| (k.clone(), *v)).collect();
+    let unjudged_why: BTreeMap<String, u64> = agg.counters.iter().filter(|(k, _)| k.starts_with("unjudged.")).map(|(k, v)| (k.clone(), *v)).collect();
     let mut samples = agg.samples.clone();
     samples.sort_by_key(|s| s["index"].as_u64().unwrap_or(0));
     let evidence = json!({
@@ -546,6 +553,7 @@ pub fn check_main(args: &[String]) -> i32 {
             "simulated_seconds_covered": agg.sim_span_s,
             "faults_fired": fault_kinds,
             "probes": probes,
+            "unjudged_reasons": unjudged_why,
             "judged_steps": agg.judged,
             "unjudged_steps": agg.unjudged,
             "distinct_traces": agg.trace_hashes.len(),
